@@ -269,6 +269,7 @@ def c04_r4(ctx):
     d = R.drain_fn()
     rc, lps = _recv_loop(ctx, d)
     ctx.need(len(lps) == 1, "recv loop")
+    _drain_shape_gate(d)
     lp = lps[0]
     gts = [c for c in d.calls if c.bb in lp["body"] and c.path == "packet::Packet::get_ticket"]
     ctx.need(len(gts) == 1, "one Packet::get_ticket call in the recv loop")
@@ -323,6 +324,16 @@ def c04_r4(ctx):
              gt.where)
 
 
+def _drain_shape_gate(d):
+    """The rules about the draining function read the form `one loop that receives and sorts
+    the packets' verdicts, one loop that hashes the tickets`.  A pipeline with more stages
+    (verdicts collected first and examined in a later pass, folds) may well be right; it is
+    not judged."""
+    n = len(d.loops())
+    if n != 2:
+        raise AnalysisError("idiom not recognised: %s has %d loops after normalisation (the rules read the receive loop + hash loop form)" % (d.id, n))
+
+
 @rule("C01.R2", floor=3)
 def c01_r2(ctx):
     """The sources hash covers every upstream hash in receiver order: each Ok(ticket) is
@@ -332,6 +343,7 @@ def c01_r2(ctx):
     d = R.drain_fn()
     rc, lps = _recv_loop(ctx, d)
     ctx.inst("recv site", rc.where)
+    _drain_shape_gate(d)
     if len(lps) != 1 or not all(o[0][0] == "param" and all(st[0] in ("iter", "adapt") for st in o[1:]) for o in lps[0]["iter"]) \
             or d.origins_of_operand(rc.args[0]) != lps[0]["elem"]:
         ctx.viol((d.id, "not-receiver-order"), "tickets are not received by one recv per receiver in the fixed receiver (sorted-source) order: the sources hash would depend on the order in which producers finish, so identical sources can miss the history", rc.where)
@@ -346,7 +358,9 @@ def c01_r2(ctx):
     if po != want:
         ctx.viol((d.id, "packet-not-received"), "the packet examined is not the Ok payload of this iteration's recv", gt.where)
     ok_edges = d.edges_of_call_variant(gt, "Ok")
-    pushes = [c for c in d.calls_to("std::vec::Vec::<T, A>::push") if c.bb in lp["body"]]
+    # (the verdict may be examined in the receiving loop or, when the packets' verdicts are
+    #  collected first, in a later loop over them: the loop that holds the Ok edges counts)
+    pushes = d.calls_to("std::vec::Vec::<T, A>::push")
     ctx.inst("ticket push", pushes[0].where if pushes else None)
     payload = d._call_origins(gt, (("variant", "Ok"), ("field", 0)), frozenset())
     good = [p for p in pushes if d.origins_of_operand(p.args[1]) == payload]
@@ -354,7 +368,8 @@ def c01_r2(ctx):
         ctx.viol((d.id, "ticket-not-pushed"), "the Ok ticket of a packet is not pushed into the ticket vector", gt.where)
         return
     r = d.reach([x for (_, x) in ok_edges], avoid_blocks=[p.bb for p in good])
-    if lp["header"] in r:
+    headers = {l2["header"] for l2 in d.loops() if any(src in l2["body"] for (src, _) in ok_edges)} or {lp["header"]}
+    if headers & r:
         ctx.viol((d.id, "ticket-push-skipped"), "some path drops a received ticket (a source's hash would not reach the sources hash)", gt.where)
     else:
         ctx.ok()
@@ -694,8 +709,7 @@ def c04_r5(ctx):
                         if e.vars_of_operand(ln.args[0]) == errvec:
                             return True
         return False
-    eq_edges = e.cmp_edges(lambda dsc: is_len_zero(dsc) and dsc["op"] == "Eq", True) | \
-        e.cmp_edges(lambda dsc: is_len_zero(dsc) and dsc["op"] == "Ne", False)
+    eq_edges = e.nonempty_edges(lambda op: e.vars_of_operand(op) == errvec, False)
     for (bb, idx) in oks:
         if not e.dominated_by_edges(bb, eq_edges):
             ctx.viol((e.id, "ok-despite-errors"), "build can report success although an error was collected", e.where(bb, idx))
